@@ -4,6 +4,7 @@ Family level: actions and the two state predicates P, Q are rigid tables; the
 real `fixpoint.*` function runs once per (family, mode); z3 proves the exported
 result equal to the explicit reference for every member and state.
 """
+import os
 import time
 
 from vlib import core
@@ -14,7 +15,7 @@ FILES = ['omega/symbolic/fixpoint.py', 'omega/symbolic/prime.py']
 FUNCS = ['fixpoint.step', 'fixpoint.attractor', 'fixpoint.trap', 'fixpoint.ee_image',
          'fixpoint.descendants', 'prime.prime', 'prime.unprime']
 MODES = c01.MODES
-SOLVER_MS = 600000
+SOLVER_MS = 600000 * int(os.environ.get('VERIF_Z3_SCALE', '1'))
 OPS = ['step', 'attractor', 'attractor_inside', 'attractor_inside_any', 'trap', 'trap_unless', 'ee_image',
        'descendants_future', 'descendants_now']
 
